@@ -1,6 +1,7 @@
 package props
 
 import (
+	"sort"
 	"fmt"
 	"go/ast"
 	"go/token"
@@ -177,12 +178,15 @@ func checkAggTriggers(c *core.Ctx) {
 	}
 	checkArrayTrigger(c)
 	// ABS4 orientation
-	for _, name := range []string{"(*minKey).Less", "(*maxKey).Less", "(*arrayKey).Less"} {
-		fn := p.Func("aggregates", name)
-		key := "aggregates." + name
-		if fn == nil {
-			c.Unknown("ABS4", key, 0, "anchor not found")
-			continue
+	lessMethods := treeItemLessMethods(p, "aggregates")
+	if len(lessMethods) == 0 {
+		c.Unknown("ABS4", "aggregates.<Less methods>", 0, "no Less(btree.Item) method found in the aggregates package")
+	}
+	for _, fn := range lessMethods {
+		key := p.FName(fn)
+		recvName := "key"
+		if len(fn.Decl.Recv.List[0].Names) == 1 {
+			recvName = fn.Decl.Recv.List[0].Names[0].Name
 		}
 		res := map[int64]string{}
 		var err error
@@ -199,7 +203,7 @@ func checkAggTriggers(c *core.Ctx) {
 			res[comp] = outs[0].Values[0].Canon()
 			// operands in receiver-then-argument order
 			for _, e := range outs[0].Events {
-				if e.Name == "Compare" && (!strings.HasPrefix(e.Args[0].Canon(), "key.") || strings.HasPrefix(e.Args[1].Canon(), "key.")) {
+				if e.Name == "Compare" && (!strings.HasPrefix(e.Args[0].Canon(), recvName+".") || strings.HasPrefix(e.Args[1].Canon(), recvName+".")) {
 					err = fmt.Errorf("Compare operands are not (receiver key, other key): %s", e.String())
 				}
 			}
@@ -368,4 +372,22 @@ func checkPrototypeFreshState(c *core.Ctx) {
 	}
 	c.Floor("PROTO", 8, "count, sum×3, avg×3, min, max, array, distinct prototypes")
 	_ = n
+}
+
+// treeItemLessMethods: the methods `Less(btree.Item) bool` of a package — the orders of its btree multisets,
+// whatever the item types are called.
+func treeItemLessMethods(p *core.Program, rel string) []*core.FuncRef {
+	var out []*core.FuncRef
+	for _, fn := range p.AllFuncs(rel) {
+		if core.Rel(fn.Pkg) != rel || fn.Decl.Recv == nil || fn.Decl.Name.Name != "Less" || fn.Decl.Body == nil || len(fn.Decl.Recv.List) != 1 {
+			continue
+		}
+		ps := fn.Decl.Type.Params
+		if ps == nil || ps.NumFields() != 1 || !strings.HasSuffix(core.ExprStr(ps.List[0].Type), "btree.Item") {
+			continue
+		}
+		out = append(out, fn)
+	}
+	sort.Slice(out, func(i, j int) bool { return p.FName(out[i]) < p.FName(out[j]) })
+	return out
 }
